@@ -120,6 +120,36 @@ class Context:
             I.frames.pop()
             I.record = rec
 
+    def apply(self, I, fi, callee, args, kwargs=()):
+        """Apply a callable value (closure / function term) to argument terms inside interpreter I."""
+        fr = Frame_(fi, {}, None, None, len(I.pc), 0, ())
+        node = ast.parse('f()', mode='eval').body
+        I.frames.append(fr)
+        try:
+            return I._call_value(callee, list(args), list(kwargs), node, fr)
+        finally:
+            I.frames.pop()
+
+    def ref_func(self, like_fi, src):
+        """A reference transcription (spec) as a function living in the same module/class as like_fi."""
+        tree = ast.parse(src.strip('\n') if not src.startswith(' ') else __import__('textwrap').dedent(src))
+        node = tree.body[0]
+        fi = FuncInfo(like_fi.module, like_fi.qual + '#spec', node, cls=like_fi.cls, parent=like_fi.parent)
+        fi.decorators = list(like_fi.decorators)
+        fi.is_classmethod, fi.is_staticmethod, fi.is_property = like_fi.is_classmethod, like_fi.is_staticmethod, like_fi.is_property
+        return fi
+
+    def run_ref(self, like_fi, src, **kw):
+        fi = self.ref_func(like_fi, src)
+        I = self.interp(types=kw.pop('types', None), no_inline=kw.pop('no_inline', ()), max_depth=kw.pop('max_depth', None),
+                        expand=kw.pop('expand', True), sticky_attrs=kw.pop('sticky_attrs', ()))
+        for pname, cshort in (kw.pop('typed_params', None) or {}).items():
+            I.types[sym(pname).key] = self.prog.cls(cshort)
+        for k, v in (kw.pop('heap', None) or {}).items():
+            I.heap[(sym('self').key, k)] = v if isinstance(v, Term) else self.spec(like_fi, v)
+        r = I.run(fi, args=kw.pop('args', None))
+        return r, I
+
     # ------------------------------------------------------------------ obligations
     def site(self, fi):
         if isinstance(fi, FuncInfo):
